@@ -941,6 +941,98 @@ impl<V> Item<V> {
     //@| entry proof { lemma_refs_ms_empty::<V>(); }
 }
 
+// ---------------------------------------------------------------- retain (batch removal; C02)
+// STRUCTURAL contract only: whatever the predicate does to the stored values, the result is a well-formed tree with the same case flag,
+// no new patterns, no new ids, not more values, and the prefix discipline of the parent kept — so lookup == linear scan keeps holding
+// afterwards and later inserts inherit the right case flag. WHICH values are kept (f's verdict per value) is NOT part of this contract.
+// ASSUMED (trusted, listed): HashMap::retain only removes keys (values may be updated through the &mut the predicate receives)
+pub assume_specification<K, V, S, A: std::alloc::Allocator, F: FnMut(&K, &mut V) -> bool> [HashMap::<K, V, S, A>::retain] (m: &mut HashMap<K, V, S, A>, f: F)
+    requires forall|k: &K, v: &mut V| #[trigger] f.requires((k, v)),
+    ensures final(m)@.dom().subset_of(old(m)@.dom());
+pub open spec fn sub_leaves<V>(new: Multiset<LeafV<V>>, old: Multiset<LeafV<V>>) -> bool {
+    forall|l: LeafV<V>| #[trigger] new.count(l) > 0 ==> exists|l0: LeafV<V>| #[trigger] old.count(l0) > 0 && l0.0 == l.0 && l.1.dom().subset_of(l0.1.dom())
+}
+pub open spec fn ret_post<V>(old: Item<V>, r: Item<V>) -> bool {
+    &&& wf(r) && item_ic(r) == item_ic(old)
+    &&& count(r) <= count(old)
+    &&& sub_leaves(leaves_ms(r), leaves_ms(old))
+    &&& forall|q: Seq<char>| bprefix(q, item_pat(old)) ==> (r is Empty) || #[trigger] bprefix(q, item_pat(r))
+}
+pub proof fn lemma_sub_leaves_add<V>(a: Multiset<LeafV<V>>, a0: Multiset<LeafV<V>>, b: Multiset<LeafV<V>>, b0: Multiset<LeafV<V>>)
+    requires sub_leaves(a, a0), sub_leaves(b, b0),
+    ensures sub_leaves(a.add(b), a0.add(b0)),
+{
+    assert forall|l: LeafV<V>| #[trigger] a.add(b).count(l) > 0 implies exists|l0: LeafV<V>| #[trigger] a0.add(b0).count(l0) > 0 && l0.0 == l.0 && l.1.dom().subset_of(l0.1.dom()) by {
+        if a.count(l) > 0 {
+            let l0 = choose|l0: LeafV<V>| #[trigger] a0.count(l0) > 0 && l0.0 == l.0 && l.1.dom().subset_of(l0.1.dom());
+            assert(a0.add(b0).count(l0) > 0);
+        } else {
+            assert(b.count(l) > 0);
+            let l0 = choose|l0: LeafV<V>| #[trigger] b0.count(l0) > 0 && l0.0 == l.0 && l.1.dom().subset_of(l0.1.dom());
+            assert(a0.add(b0).count(l0) > 0);
+        }
+    }
+}
+impl<V> Leaf<V> {
+    //@@ fn src/regex_radix_tree/leaf.rs :: impl <V>Leaf<V> / fn retain -> r
+    //@| requires wf(Item::Leaf(self)), forall|k: &str, v: &mut V| #[trigger] f.requires((k, v)),
+    //@| ensures ret_post(Item::Leaf(self), r),
+    //@| entry broadcast use vstd::std_specs::hash::group_hash_axioms; broadcast use axiom_string_key_model; let ghost m0 = self.values@; let ghost p0 = self.regex.original@;
+    //@| after `self.values.retain(|k, v| f(k, v));`: proof {
+    //@|     let m1 = this.values@;
+    //@|     vstd::set_lib::lemma_len_subset(m1.dom(), m0.dom());
+    //@|     assert(m1.dom().finite());
+    //@|     assert(Multiset::singleton((p0, m0)).count((p0, m0)) > 0);
+    //@|     assert forall|l: LeafV<V>| #[trigger] Multiset::singleton((p0, m1)).count(l) > 0 implies exists|l0: LeafV<V>| #[trigger] Multiset::singleton((p0, m0)).count(l0) > 0 && l0.0 == l.0 && l.1.dom().subset_of(l0.1.dom()) by { assert(l == (p0, m1)); }
+    //@| }
+}
+impl<V> Node<V> {
+    //@@ fn src/regex_radix_tree/node.rs :: impl <V>Node<V> / fn retain -> r
+    //@| requires wf(Item::Node(self)), forall|k: &str, v: &mut V| #[trigger] f.requires((k, v)),
+    //@| ensures ret_post(Item::Node(self), r),
+    //@| decreases self, 0int,
+    //@| entry let ghost old_it = Item::Node(self); let ghost o = self.regex.original@; let ghost ic = self.regex.ignore_case; let ghost cs0 = self.children@;
+    //@| forlabel 0: it
+    //@| loop 0: invariant iter_ok(it.history@, it.index@, it.snapshot@.remaining(), cs0), wf(old_it), old_it == Item::Node(self), cs0 == self.children@, ic == self.regex.ignore_case, o == self.regex.original@,
+    //@|         forall|k: &str, v: &mut V| #[trigger] f.requires((k, v)),
+    //@|         forall|j: int| 0 <= j < children@.len() ==> wf(#[trigger] children@[j]) && !(children@[j] is Empty) && item_ic(children@[j]) == ic && bprefix(o, item_pat(children@[j])),
+    //@|         sub_leaves(leaves_children(children@, children@.len() as int), leaves_children(cs0, it.index@)),
+    //@|         count_children(children@, children@.len() as int) <= count_children(cs0, it.index@),
+    //@| loophead 0: let ghost k = it.index@; let ghost ch0 = children@; let ghost c_old = cs0[k];
+    //@|     proof { assert(child == cs0[k]); assert(self.children@[k] == child); assert(wf(child) && !(child is Empty) && item_ic(child) == ic && bprefix(o, item_pat(child)));
+    //@|             assert(leaves_children(cs0, k + 1) == leaves_children(cs0, k).add(leaves_ms(cs0[k]))); assert(count_children(cs0, k + 1) == count_children(cs0, k) + count(cs0[k])); }
+    //@| looptail 0: proof {
+    //@|     let c1 = child;
+    //@|     assert(ret_post(c_old, c1));
+    //@|     if count(c1) == 0 {
+    //@|         assert(children@ == ch0);
+    //@|         lemma_sub_leaves_add(leaves_children(ch0, ch0.len() as int), leaves_children(cs0, k), Multiset::<LeafV<V>>::empty(), leaves_ms(c_old));
+    //@|         assert(leaves_children(ch0, ch0.len() as int).add(Multiset::<LeafV<V>>::empty()) =~= leaves_children(ch0, ch0.len() as int));
+    //@|     } else {
+    //@|         lemma_children_push(ch0, c1);
+    //@|         assert(children@ =~= ch0.push(c1));
+    //@|         assert(!(c1 is Empty));
+    //@|         assert(bprefix(o, item_pat(c1)));
+    //@|         lemma_sub_leaves_add(leaves_children(ch0, ch0.len() as int), leaves_children(cs0, k), leaves_ms(c1), leaves_ms(c_old));
+    //@|     }
+    //@| }
+    //@| before `if children.len() == 1 {`: proof {
+    //@|     if children@.len() == 1 {
+    //@|         let c = children@[0];
+    //@|         assert(leaves_children(children@, 1) == leaves_children(children@, 0).add(leaves_ms(c)));
+    //@|         assert(Multiset::<LeafV<V>>::empty().add(leaves_ms(c)) =~= leaves_ms(c));
+    //@|         assert(count_children(children@, 1) == count_children(children@, 0) + count(c));
+    //@|         assert forall|q: Seq<char>| bprefix(q, o) implies #[trigger] bprefix(q, item_pat(c)) by { lemma_bprefix_trans(q, o, item_pat(c)); }
+    //@|     }
+    //@| }
+}
+impl<V> Item<V> {
+    //@@ fn src/regex_radix_tree/item.rs :: impl <V>Item<V> / fn retain -> r
+    //@| requires wf(self), forall|k: &str, v: &mut V| #[trigger] f.requires((k, v)),
+    //@| ensures ret_post(self, r),
+    //@| decreases self, 1int,
+}
+
 // ================================================================ the public maps (src/regex_radix_tree/tree.rs)
 //@@ item src/regex_radix_tree/tree.rs :: struct RegexTreeMap
 //@@ item src/regex_radix_tree/tree.rs :: struct UniqueRegexTreeMap
@@ -959,6 +1051,10 @@ impl<V> RegexTreeMap<V> {
     //@@ fn src/regex_radix_tree/tree.rs :: impl <V>RegexTreeMap<V> / fn remove -> r
     //@| requires old(self).wf(),
     //@| ensures rem_post(old(self).root, final(self).root, id@, r),
+
+    //@@ fn src/regex_radix_tree/tree.rs :: impl <V>RegexTreeMap<V> / fn retain
+    //@| requires old(self).wf(), forall|k: &str, v: &mut V| #[trigger] f.requires((k, v)),
+    //@| ensures ret_post(old(self).root, final(self).root),
 
     //@@ fn src/regex_radix_tree/tree.rs :: impl <V>RegexTreeMap<V> / fn len -> r
     //@| requires count(self.root) <= usize::MAX,
@@ -1010,6 +1106,10 @@ impl<V> UniqueRegexTreeMap<V> {
     //@@ fn src/regex_radix_tree/tree.rs :: impl <V>UniqueRegexTreeMap<V> / fn remove -> r
     //@| requires old(self).tree.wf(),
     //@| ensures rem_post(old(self).tree.root, final(self).tree.root, regex@, r),
+
+    //@@ fn src/regex_radix_tree/tree.rs :: impl <V>UniqueRegexTreeMap<V> / fn retain
+    //@| requires old(self).tree.wf(), forall|k: &str, v: &mut V| #[trigger] f.requires((k, v)),
+    //@| ensures ret_post(old(self).tree.root, final(self).tree.root),
 
     //@@ fn src/regex_radix_tree/tree.rs :: impl <V>UniqueRegexTreeMap<V> / fn find -> r
     //@| requires self.tree.wf(),
